@@ -37,17 +37,27 @@ CONSTANTS
   OtherTokens,     \* subset of {"foreign", "junk"}: kinds of tokens presented besides the ones this node handed out
   MaxStored,       \* bound: steps are explored from states with at most this many stored values
   KeepSecrets,     \* size of the secret window (2); 3 is a negative control
+  Validity,        \* TOKEN_EXPIRATION_TIME in clock units: a token is honoured at most this long after it was handed out.
+                   \* 0 = untimed abstraction (the window is counted in rotations: at most one since the token was issued)
+  RotatePeriod,    \* period of the token_maintenance timer in clock units (300 s); while a run is due the clock does not
+                   \* move on.  0 = rotation is a free event (untimed configurations; recorded traces, where the real
+                   \* timer decides and only the validity window is judged)
+  ExpiredYields,   \* FALSE: put() compares versions whether or not the stored entry is past its lifetime (the statement:
+                   \* "a stored newer version is never replaced by an older one" - it is stored until maintenance removes
+                   \* it).  TRUE = negative control: an expired, not yet cleaned entry yields to any version
   CleanAll         \* TRUE: clean() removes every expired value (repaired code)
                    \* FALSE: pinned code stopped at the first unexpired value from the old end
 
 VARIABLES secrets,  \* sequence of secret epochs, newest last (token_secrets)
-          issued,   \* history: tokens this node handed out  [a, k, ep]
+          issued,   \* history: tokens this node handed out  [a, k, ep, t]  (t = clock value of the find-response;
+                    \* 0 in the untimed abstraction)
+          lastRot,  \* clock value of the latest token_maintenance run (stays 0 when RotatePeriod = 0)
           storage,  \* sequence of [v |-> value, exp |-> clock value after which it is expired]  (Storage.items[key])
           clock,
           closer,
           peers,    \* DHTDiscoveryCommunity.store as a set of [t |-> key whose mid is the target, k |-> key of the stored node]
           mon       \* monitor: names of violated obligations (must stay empty)
-vars == <<secrets, issued, storage, clock, closer, peers, mon>>
+vars == <<secrets, issued, lastRot, storage, clock, closer, peers, mon>>
 
 (* ------------------------------------- values ------------------------------------------------- *)
 None == "none"
@@ -74,15 +84,19 @@ IsOwn(v)    == v.s # None /\ v.s = OwnSigner
 (* kind "own": sha1(str(requester) + secret ep of this node); "foreign": issued by another node to the same   *)
 (* requester; "junk": 20 arbitrary bytes                                                                      *)
 Epoch == secrets[Len(secrets)]
+Timed == Validity > 0
+Stamp == IF Timed THEN clock ELSE 0
 Presentable(a, k) == {[a |-> t.a, k |-> t.k, ep |-> t.ep, kind |-> "own"] : t \in issued} \cup
                      {[a |-> a, k |-> k, ep |-> 0, kind |-> x] : x \in OtherTokens}
 
 TokenUniverse == [a : Addrs, k : Keys, ep : 0..(MaxRot + 1), kind : {"own", "foreign", "junk"}]
 
-(* abstract: what the statement demands *)
+(* abstract: what the statement demands.  The token (a bit string determined by requester and secret) may have been *)
+(* handed out several times; it is within the validity window when one of these hand-outs is recent enough.         *)
+Recent(r) == IF Timed THEN clock - r.t <= Validity       \* handed out at most TOKEN_EXPIRATION_TIME ago
+                      ELSE Epoch - r.ep <= 1             \* at most one rotation since it was handed out
 Authorised(a, k, tok) == /\ tok.kind = "own" /\ tok.a = a /\ tok.k = k
-                         /\ [a |-> a, k |-> k, ep |-> tok.ep] \in issued
-                         /\ Epoch - tok.ep <= 1                       \* at most one rotation since it was handed out
+                         /\ \E r \in issued : r.a = a /\ r.k = k /\ r.ep = tok.ep /\ Recent(r)
 (* implementation: hash equality against the secrets still in the window *)
 CheckToken(a, k, tok) == tok.kind = "own" /\ tok.a = a /\ tok.k = k /\ tok.ep \in Range(secrets)
 
@@ -101,7 +115,7 @@ Put(s, v, life, now) ==
       idx == {i \in 1..Len(s) : Id(s[i].v) = Id(v)}
   IN IF idx = {} THEN OwnLast(<<new>> \o s)
      ELSE LET i == CHOOSE j \in idx : TRUE IN
-          IF v.ver > s[i].v.ver \/ (v.ver = s[i].v.ver /\ EqReplaces)
+          IF v.ver > s[i].v.ver \/ (v.ver = s[i].v.ver /\ EqReplaces) \/ (ExpiredYields /\ Expired(s[i], now))
           THEN OwnLast(<<new>> \o RemoveIdx(s, i))
           ELSE s
 
@@ -117,16 +131,20 @@ CleanSeq(s, now) == IF CleanAll THEN SelectSeq(s, LAMBDA e : ~Expired(e, now)) E
 
 (* ------------------------------------- actions ------------------------------------------------ *)
 Init == /\ secrets = <<1>>        \* the constructor runs token_maintenance once
-        /\ issued = {} /\ storage = <<>> /\ clock = 0 /\ closer = InitCloser /\ peers = {} /\ mon = {}
+        /\ issued = {} /\ lastRot = 0 /\ storage = <<>> /\ clock = 0 /\ closer = InitCloser /\ peers = {} /\ mon = {}
 
 FindRequest(a, k) ==                                  \* on_find_request: the response carries generate_token(requester)
-  /\ Cardinality(issued \cup {[a |-> a, k |-> k, ep |-> Epoch]}) <= MaxIssued
-  /\ issued' = issued \cup {[a |-> a, k |-> k, ep |-> Epoch]}
-  /\ UNCHANGED <<secrets, storage, clock, closer, peers, mon>>
+  /\ Cardinality(issued \cup {[a |-> a, k |-> k, ep |-> Epoch, t |-> Stamp]}) <= MaxIssued
+  /\ issued' = issued \cup {[a |-> a, k |-> k, ep |-> Epoch, t |-> Stamp]}
+  /\ UNCHANGED <<secrets, lastRot, storage, clock, closer, peers, mon>>
 
-RotateSecrets ==                                      \* token_maintenance
+RotDue == RotatePeriod > 0 /\ clock - lastRot >= RotatePeriod      \* the token_maintenance timer has expired
+
+RotateSecrets ==                                      \* token_maintenance (a periodic task when RotatePeriod > 0)
   /\ Epoch <= MaxRot
+  /\ RotatePeriod > 0 => RotDue
   /\ secrets' = (IF Len(secrets) < KeepSecrets THEN secrets ELSE Tail(secrets)) \o <<Epoch + 1>>
+  /\ lastRot' = IF RotatePeriod > 0 THEN clock ELSE lastRot
   /\ UNCHANGED <<issued, storage, clock, closer, peers, mon>>
 
 StoreRequest(a, k, tok, b) ==                         \* on_store_request
@@ -135,33 +153,34 @@ StoreRequest(a, k, tok, b) ==                         \* on_store_request
   /\ storage' = IF accept THEN AddAll(storage, b, Life(closer), clock) ELSE storage
   /\ mon' = mon \cup (IF accept /\ ~Authorised(a, k, tok) THEN {"auth"} ELSE {})
                 \cup (IF accept /\ ~WithinLimits(b) THEN {"limits"} ELSE {})
-  /\ UNCHANGED <<secrets, issued, clock, closer, peers>>
+  /\ UNCHANGED <<secrets, issued, lastRot, clock, closer, peers>>
 
 LocalStore(v) ==                                      \* store_on_nodes keeps a local copy with the default lifetime
   /\ Locals
   /\ storage' = AddValue(storage, v, Base * Scale, clock)
-  /\ UNCHANGED <<secrets, issued, clock, closer, peers, mon>>
+  /\ UNCHANGED <<secrets, issued, lastRot, clock, closer, peers, mon>>
 
 Clean ==                                              \* value_maintenance
   /\ storage' = CleanSeq(storage, clock)
   /\ mon' = mon \cup (IF \E i \in 1..Len(storage') : Expired(storage'[i], clock) THEN {"expiry"} ELSE {})
-  /\ UNCHANGED <<secrets, issued, clock, closer, peers>>
+  /\ UNCHANGED <<secrets, issued, lastRot, clock, closer, peers>>
 
 Tick == /\ clock < MaxClock
+        /\ ~RotDue                                    \* timers fire on time: the due maintenance run comes first
         /\ clock' = clock + 1
-        /\ UNCHANGED <<secrets, issued, storage, closer, peers, mon>>
+        /\ UNCHANGED <<secrets, issued, lastRot, storage, closer, peers, mon>>
 
 Discover ==                                           \* on_node_discovered: one more node closer to the key
   /\ closer < MaxCloser
   /\ closer' = closer + 1
-  /\ UNCHANGED <<secrets, issued, storage, clock, peers, mon>>
+  /\ UNCHANGED <<secrets, issued, lastRot, storage, clock, peers, mon>>
 
 StorePeerRequest(a, k, tok, t) ==                     \* on_store_peer_request, t = key whose mid is the target
   LET accept == CheckToken(a, k, tok) /\ t = k IN
   /\ PeerStore /\ tok \in Presentable(a, k)
   /\ peers' = IF accept THEN peers \cup {[t |-> t, k |-> k]} ELSE peers
   /\ mon' = mon \cup (IF accept /\ ~Authorised(a, k, tok) THEN {"peer-auth"} ELSE {})
-  /\ UNCHANGED <<secrets, issued, storage, clock, closer>>
+  /\ UNCHANGED <<secrets, issued, lastRot, storage, clock, closer>>
 
 Next == \/ \E a \in Addrs, k \in Keys : FindRequest(a, k)
         \/ RotateSecrets
@@ -188,6 +207,7 @@ UnsignedSeen(seen)  == {seen[i].d : i \in {j \in 1..Len(seen) : seen[j].s = None
 (* ------------------------------------- properties --------------------------------------------- *)
 TypeOK == /\ Len(secrets) \in 1..KeepSecrets
           /\ \A i \in 1..Len(storage) : storage[i].v.s \in Signers \cup {None} /\ storage[i].exp \in Nat
+          /\ lastRot \in 0..clock
           /\ mon \subseteq {"auth", "limits", "expiry", "peer-auth"}
 StoreNeedsOwnFreshToken == "auth" \notin mon
 Limits                  == "limits" \notin mon /\ \A i \in 1..Len(storage) : storage[i].v.sz # "over"
@@ -196,6 +216,10 @@ OneEntryPerId           == \A i, j \in 1..Len(storage) : Id(storage[i].v) = Id(s
 ExpiredGoneAfterClean   == "expiry" \notin mon
 StorePeerOnlyOwnMid     == "peer-auth" \notin mon /\ \A p \in peers : p.t = p.k
 WindowIsTwoNewest       == \A i \in 1..Len(secrets) : Epoch - secrets[i] <= 1
+(* the timing assumption the window rests on (holds by construction of Tick): a maintenance run is never overdue, so   *)
+(* with a two-slot window and RotatePeriod = Validity / 2 no secret opens the gate longer than Validity after the first *)
+(* token made with it                                                                                                   *)
+RotationOnTime          == RotatePeriod > 0 => clock - lastRot <= RotatePeriod
 
 VerOf(s, st) == LET idx == {i \in 1..Len(st) : st[i].v.s = s} IN
                 IF idx = {} THEN -1 ELSE st[CHOOSE i \in idx : TRUE].v.ver
